@@ -16,6 +16,7 @@ oracle : on the implementation alone: every configuration lints without hang / p
 import itertools
 import json
 import os
+import re
 import shutil
 import subprocess
 from collections import Counter
@@ -69,7 +70,6 @@ def ms_full(o):
 
 def ms_noloc(o):
     """diagnostics without locations; the per-configuration directory in messages is not a location of the program"""
-    import re
     return Counter((d[0], d[1], re.sub(r"/[^ ]*/cfg\d+/", "<dir>/", d[5])) for d in o["diags"])
 
 
@@ -96,9 +96,6 @@ def model_inc_events(rep):
     if not rep or not rep.startswith("ok"):
         return None
     stmts, errs, fatal = [], [], False
-    for tok in rep[2:].replace("(", " ").replace(")", " ").split():
-        pass
-    import re
     for k, v in re.findall(r"\((\w) (\d+)\)", rep):
         if k == "s":
             stmts.append(int(v))
@@ -295,7 +292,6 @@ def run(ctx):
         # model: scopes and recursion set
         if mreq:
             mr = mrep.get(ci) or ""
-            import re
             m = re.match(r"ok \((.*)\) cyc ok \((.*)\)$", mr)
             if not m:
                 viol("model", "Model/ScopeInfer.v gives no result within its fuel: %s" % mr[:200],
